@@ -62,17 +62,17 @@ Theorem sf_de_ser t j : sf_canonical t j = true -> exists v, sf_de t j = Ok v /\
 Proof.
   unfold sf_de. destruct j; try discriminate. destruct t; cbn [sf_canonical sf_de_gen]; intros H.
   - destruct (parse_unsigned s) as [z|]; [|discriminate]. apply andb_prop in H as [H1 H2]. apply bytes_eqb_eq in H2.
-    rewrite H1. exists (VNum z). split; [reflexivity|]. cbn [sf_ser]. now rewrite H2.
+    rewrite H1. exists (SVNum z). split; [reflexivity|]. cbn [sf_ser]. now rewrite H2.
   - destruct (parse_i128 s) as [z|]; [|discriminate]. apply andb_prop in H as [H1 H2]. apply bytes_eqb_eq in H2.
-    cbn [andb]. rewrite H1. exists (VNum z). split; [reflexivity|]. cbn [sf_ser]. now rewrite H2.
+    cbn [andb]. rewrite H1. exists (SVNum z). split; [reflexivity|]. cbn [sf_ser]. now rewrite H2.
   - destruct (parse_bigint s) as [z|]; [|discriminate]. apply bytes_eqb_eq in H.
-    exists (VNum z). split; [reflexivity|]. cbn [sf_ser]. now rewrite H.
+    exists (SVNum z). split; [reflexivity|]. cbn [sf_ser]. now rewrite H.
   - apply andb_prop in H as [H1 H2]. destruct (lower_hexb_unhex _ H1) as [b [Hu Hh]]. rewrite Hu.
     pose proof (unhex_length _ _ Hu) as Hl. destruct (blen b =? n) eqn:E; [|lia].
-    exists (VBytes b). split; [reflexivity|]. cbn [sf_ser]. now rewrite Hh.
+    exists (SVBytes b). split; [reflexivity|]. cbn [sf_ser]. now rewrite Hh.
   - apply andb_prop in H as [H1 H2]. destruct (lower_hexb_unhex _ H1) as [b [Hu Hh]]. rewrite Hu.
     pose proof (unhex_length _ _ Hu) as Hl. destruct (blen b <=? 32) eqn:E; [|lia].
-    exists (VBytes b). split; [reflexivity|]. cbn [sf_ser]. now rewrite Hh.
+    exists (SVBytes b). split; [reflexivity|]. cbn [sf_ser]. now rewrite Hh.
 Qed.
 
 (* ===== anything but a JSON string is an error; the result is never a panic ===== *)
@@ -90,6 +90,6 @@ Qed.
 
 (* the behaviour of Int::from_str before /repo a6f00b9 broke both statements *)
 Example sf_old_int_refuted :
-  sf_de_gen true SInt (sf_ser SInt (VNum (- two64Z))) = Err /\
+  sf_de_gen true SInt (sf_ser SInt (SVNum (- two64Z))) = Err /\
   sf_de_gen true SInt (JStr (print_Z i128_min)) = Panic.
 Proof. split; vm_compute; reflexivity. Qed.
